@@ -1,9 +1,11 @@
 #!/bin/sh
 # tools/run_tiers.sh <tier> <seed> <ids...> : run several checks one after the other (for background sweeps);
-# uses $VP_RUN_REPO as the repository under test when set (snapshot of /repo's HEAD)
+# uses $VP_RUN_REPO as the repository under test when set (snapshot of /repo's HEAD); full output in sweep-<id>-<tier>-<seed>.out
 tier="$1"; seed="$2"; shift 2
 [ -n "$VP_RUN_REPO" ] && export VERIF_REPO="$VP_RUN_REPO"
 for id in "$@"; do
-  /usr/bin/time -f "$id $tier seed=$seed wall=%es" env VERIF_SEED=$seed ./check "$id" "$tier" 2>&1 | grep -v '^WARNING\|^DRIFT' | tail -4
-  echo "exit=$? $id"
+  t0=$(date +%s)
+  VERIF_SEED=$seed ./check "$id" "$tier" > "sweep-$id-$tier-$seed.out" 2>&1
+  rc=$?
+  echo "$id $tier seed=$seed exit=$rc wall=$(( $(date +%s) - t0 ))s :: $(grep -v '^WARNING\|^DRIFT' "sweep-$id-$tier-$seed.out" | grep 'seed=\|INCONCLUSIVE\|VIOLATION' | tail -2 | cut -c1-300 | tr '\n' ' ')"
 done
